@@ -1242,10 +1242,6 @@ class Table(Vector):
 				for offset, col in enumerate(right_cols):
 					append_cols[base + offset](col[right_idx])
 		
-		# Handle empty result
-		if all(len(col) == 0 for col in result_data):
-			return Table(())
-		
 		# ------------------------------------------------------------------
 		# 5. Wrap result_data in Vectors
 		# ------------------------------------------------------------------
@@ -1383,10 +1379,6 @@ class Table(Vector):
 				base = n_left_cols
 				for offset in range(n_right_cols):
 					result_append_cols[base + offset](None)
-		
-		# Handle completely empty result
-		if left_nrows == 0:
-			return Table(())
 		
 		# Wrap result_data into Vectors, preserving column names
 		result_cols = []
@@ -1553,12 +1545,6 @@ class Table(Vector):
 				base = n_left_cols
 				for offset, col in enumerate(right_cols):
 					append_cols[base + offset](col[right_idx])
-		
-		# ------------------------------------------------------------------
-		# 7. If empty, return empty table
-		# ------------------------------------------------------------------
-		if left_nrows == 0 and right_nrows == 0:
-			return Table(())
 		
 		# ------------------------------------------------------------------
 		# 8. Wrap into Vectors with names preserved
